@@ -130,7 +130,7 @@ var sigs = map[string]sig{
 	"isRedactableFieldPatternInArray": {},
 	"isInSearchStage":                 {},
 	"augmentOp":                       {params: map[string]string{"0": "Table", "1": "JObj"}, results: []string{"Table"}},
-	"redactQueryValues":               {params: map[string]string{"3": "Meta"}, locals: map[string]string{"coreOp": "Meta"}},
+	"redactQueryValues":               {params: map[string]string{"3": "Meta"}},
 	"redactArrayValuesWithKey":        {},
 	"redactArrayValues":               {},
 	"HashName":                        {},
@@ -1425,6 +1425,32 @@ func (x *tr) rangeStmt(ind int, s *ast.RangeStmt) {
 	x.pop()
 }
 
+// assignedFromTable: is `name` somewhere assigned the first result of `<operator table>.Get(…)`?
+func assignedFromTable(fd *ast.FuncDecl, name string) bool {
+	r := false
+	ast.Inspect(fd.Body, func(n ast.Node) bool {
+		as, ok := n.(*ast.AssignStmt)
+		if !ok || len(as.Lhs) == 0 || len(as.Rhs) != 1 {
+			return true
+		}
+		id, ok := as.Lhs[0].(*ast.Ident)
+		if !ok || id.Name != name {
+			return true
+		}
+		if c, ok := as.Rhs[0].(*ast.CallExpr); ok {
+			if se, ok := c.Fun.(*ast.SelectorExpr); ok && se.Sel.Name == "Get" {
+				if rid, ok := se.X.(*ast.Ident); ok {
+					if g, ok := globals[rid.Name]; ok && g.t.k == "Table" {
+						r = true
+					}
+				}
+			}
+		}
+		return true
+	})
+	return r
+}
+
 // bodyUpdates: does the block call a procedure or Set on something (so that aliasing matters)?
 func bodyUpdates(b *ast.BlockStmt) bool {
 	r := false
@@ -1589,7 +1615,11 @@ func (x *tr) stmt(ind int, st ast.Stmt) {
 			for i, nm := range vs.Names {
 				var t *ty
 				if vs.Type != nil {
-					t = x.goType(vs.Type, x.reading(nm.Name))
+					rd := x.reading(nm.Name)
+					if rd == "" && typeString(vs.Type) == "any" && assignedFromTable(x.fns[x.cur].decl, nm.Name) {
+						rd = "Meta" // an interface{} that receives the result of a lookup in an operator table holds table entries
+					}
+					t = x.goType(vs.Type, rd)
 				}
 				var v ex
 				if i < len(vs.Values) {
